@@ -19,7 +19,7 @@ RULE_TEXT = ("Workflows whose steps (num_workers 1..4) take 1-3 injected resourc
              "tape-chosen time, cached and non-cached, arranged as single, chain, diamond (shared non-cached leaf) or a genuine "
              "cycle; a producer fans out 2-6 events so that several invocations resolve the same resources concurrently. "
              "Non-trivial: >=2 resolutions of one resource overlapped in time; distinct = abstract trace shape."
-             " In 30% of the two-step programs the second step refers to the first resource's factory through a descriptor with the opposite cache flag (identity judged per descriptor; the non-cached one must never be handed the cached object).")
+             " In 30% of the two-step programs the second step refers to the first resource's factory through a descriptor with the opposite cache flag (identity judged per descriptor; the non-cached one must never be handed the cached object). In 20% of the single/two shapes the factory of resource a runs a child workflow whose two concurrent step invocations resolve a non-cached resource.")
 COMPONENTS = {"real": ["workflows.resource.ResourceManager/_Resource, step_function.partial, engine"], "stub": ["llama_index_instrumentation"],
               "sim": ["loop, clock, instrumented factories"]}
 ASSUMPTIONS = ["'one dependency resolution' = the resolution performed for one step invocation"]
@@ -57,6 +57,8 @@ def gen(tape, cfg):
             "second_step": tape.chance(50, 100, "second"),
             # the second step refers to the first resource's factory through a descriptor with the opposite cache flag
             "alt_desc": tape.chance(30, 100, "alt-desc"),
+            # the factory of resource a runs another workflow, whose step invocations resolve a non-cached resource of their own
+            "nested": tape.chance(20, 100, "nested"),
             "steps": [], "types": ["E0"], "driver": "finish", "timeout": None}
 
 
@@ -96,7 +98,29 @@ def build(world, spec):
         fac.__name__ = fac.__qualname__ = f"fac_{key}"
         return fac
 
+    nested = bool(spec.get("nested")) and shape in ("single", "two")
+    if nested:
+        spec["is_async"]["a"] = True
+        spec["cache"]["c"] = False
+        spec["falsy"]["c"] = False
     facs = {k: make_factory(k, []) for k in "abcd"}
+    child_no = [0]
+    if nested:
+        world.probe("factory-runs-another-workflow")
+        inner_a = facs["a"]
+
+        async def fac_a(**deps):
+            child_no[0] += 1
+            child = child_cls[0](timeout=None, runtime=world.runtime)
+            world.trace.log("child-run-start", n=child_no[0])
+            try:
+                await child.run(start_event=EV.Start0(uid=world.uid()), run_id=f"child{child_no[0]}")
+            finally:
+                world.trace.log("child-run-end", n=child_no[0])
+            return await inner_a(**deps)
+        fac_a.__name__ = fac_a.__qualname__ = "fac_a"
+        facs["a"] = fac_a
+    child_cls: list = [None]
     res = {k: Resource(facs[k], cache=spec["cache"][k]) for k in "abcd"}
 
     def set_deps(key, deps):
@@ -165,6 +189,12 @@ def build(world, spec):
         fn.__annotations__ = ann
         return fn
 
+    if nested:
+        cns = {"cs": step(num_workers=1)(make_step("cs", EV.Start0, [], sends=2)),
+               "cw": step(num_workers=2)(make_step("cw", EV.E0, ["c"], ret_stop=True))}
+        ccls = type("ChildResWf", (Workflow,), cns)
+        ccls.__module__ = __name__
+        child_cls[0] = ccls
     ns = {"s0": step(num_workers=1)(make_step("s0", EV.Start0, [], sends=spec["n_events"])),
           "w0": step(num_workers=spec["workers"])(make_step("w0", EV.E0, top)),
           "zfin": step(num_workers=1)(make_step("zfin", EV.Fin, [], ret_stop=True))}
